@@ -6,9 +6,10 @@
    One graph.  Abstract state:
      nodes : id -> [label, tag]      (tag: 0 = no tags; the real node carries attrs.tags)
      edges : id -> [src, dst, w, rel]
-   The etag is modelled as the content itself (the most discriminating etag); the harness compares the
-   EQUALITY RELATION of real etags along a behaviour with the equality relation of contents:
-     EtagTracksContent   etag_i = etag_j  <=>  content_i = content_j      (up to hash collisions)
+   norder / eorder : the iteration order of the ids (insertion order; an upsert of an existing id keeps its place).
+   The etag is modelled as the whole abstract state (content AND iteration order: T1 reads both); the
+   harness compares the EQUALITY RELATION of real etags with the equality relation of abstract states:
+     EtagTracksState   etag_i = etag_j  <=>  state_i = state_j      (up to hash collisions)
    Operations (one action each, batch semantics = left-to-right, last write wins):
      UpsertNodes(batch)  UpsertEdges(batch)
      ApplyDeltas(batch)  recognised ops: upsert_edge (default id "e:<src>-><dst>", default rel
@@ -21,11 +22,11 @@ EXTENDS Integers, Sequences, FiniteSets, TLC, Json
 
 CONSTANTS NodeIds, EdgeIds, Labels, Weights, Rels, MaxBatch, MaxLen
 
-VARIABLES nodes, edges, h
-vars == <<nodes, edges, h>>
-
 NodeRec == [label : Labels, tag : {0, 1}]
 EdgeRec == [src : NodeIds, dst : NodeIds, w : Weights, rel : Rels]
+
+VARIABLES nodes, edges, norder, eorder, last
+vars == <<nodes, edges, norder, eorder, last>>
 
 \* delta ops: kind 1 = upsert_edge with explicit id, 2 = upsert_edge without id (default id), 3 = upsert_node with
 \* label, 4 = upsert_node without label, 5 = unknown op
@@ -37,57 +38,68 @@ DeltaOps == [kind : {1}, id : EdgeIds, src : NodeIds, dst : NodeIds, w : Weights
 
 SeqsUpTo(S, n) == UNION {[1..k -> S] : k \in 0..n}
 
-\* default edge id for (src, dst): modelled as the pair itself, a key space disjoint from EdgeIds
-DefaultId(s, d) == <<"e", s, d>>
-
-RECURSIVE FoldNodes(_, _, _)
-FoldNodes(m, b, i) == IF i > Len(b) THEN m
-                      ELSE FoldNodes([x \in DOMAIN m \cup {b[i].id} |-> IF x = b[i].id THEN [label |-> b[i].label, tag |-> b[i].tag] ELSE m[x]], b, i + 1)
-RECURSIVE FoldEdges(_, _, _)
-FoldEdges(m, b, i) == IF i > Len(b) THEN m
-                      ELSE FoldEdges([x \in DOMAIN m \cup {b[i].id} |-> IF x = b[i].id THEN [src |-> b[i].src, dst |-> b[i].dst, w |-> b[i].w, rel |-> b[i].rel] ELSE m[x]], b, i + 1)
+\* default edge id for (src, dst): the pair itself, a key space disjoint from EdgeIds ("e:<src>-><dst>" in the code)
+DefaultId(s, d) == "e:" \o s \o "->" \o d
 
 Put(m, k, v) == [x \in DOMAIN m \cup {k} |-> IF x = k THEN v ELSE m[x]]
+\* iteration order = insertion order of the ids; re-upserting an existing id keeps its position
+Ins(ord, k) == IF \E i \in 1..Len(ord) : ord[i] = k THEN ord ELSE Append(ord, k)
+
+RECURSIVE FoldNodes(_, _, _)
+FoldNodes(st, b, i) == IF i > Len(b) THEN st
+                       ELSE FoldNodes([v |-> Put(st.v, b[i].id, [label |-> b[i].label, tag |-> b[i].tag]), o |-> Ins(st.o, b[i].id)], b, i + 1)
+RECURSIVE FoldEdges(_, _, _)
+FoldEdges(st, b, i) == IF i > Len(b) THEN st
+                       ELSE FoldEdges([e |-> Put(st.e, b[i].id, [src |-> b[i].src, dst |-> b[i].dst, w |-> b[i].w, rel |-> b[i].rel]), o |-> Ins(st.o, b[i].id)], b, i + 1)
 
 RECURSIVE FoldDeltas(_, _, _)
 FoldDeltas(st, b, i) ==
     IF i > Len(b) THEN st
     ELSE LET d == b[i] IN
-         IF d.kind = 1 THEN FoldDeltas([st EXCEPT !.e = Put(st.e, d.id, [src |-> d.src, dst |-> d.dst, w |-> d.w, rel |-> "associates"]), !.n = st.n + 1], b, i + 1)
-         ELSE IF d.kind = 2 THEN FoldDeltas([st EXCEPT !.e = Put(st.e, DefaultId(d.src, d.dst), [src |-> d.src, dst |-> d.dst, w |-> d.w, rel |-> "associates"]), !.n = st.n + 1], b, i + 1)
-         ELSE IF d.kind = 3 THEN FoldDeltas([st EXCEPT !.v = IF d.id \in DOMAIN st.v THEN st.v ELSE Put(st.v, d.id, [label |-> d.label, tag |-> 0]), !.n = st.n + 1], b, i + 1)
-         ELSE IF d.kind = 4 THEN FoldDeltas([st EXCEPT !.v = IF d.id \in DOMAIN st.v THEN st.v ELSE Put(st.v, d.id, [label |-> "=id", tag |-> 0]), !.n = st.n + 1], b, i + 1)
+         IF d.kind = 1 THEN FoldDeltas([st EXCEPT !.e = Put(st.e, d.id, [src |-> d.src, dst |-> d.dst, w |-> d.w, rel |-> "associates"]),
+                                                  !.eo = Ins(st.eo, d.id), !.n = st.n + 1], b, i + 1)
+         ELSE IF d.kind = 2 THEN FoldDeltas([st EXCEPT !.e = Put(st.e, DefaultId(d.src, d.dst), [src |-> d.src, dst |-> d.dst, w |-> d.w, rel |-> "associates"]),
+                                                       !.eo = Ins(st.eo, DefaultId(d.src, d.dst)), !.n = st.n + 1], b, i + 1)
+         ELSE IF d.kind \in {3, 4}
+              THEN FoldDeltas([st EXCEPT !.v = IF d.id \in DOMAIN st.v THEN st.v
+                                               ELSE Put(st.v, d.id, [label |-> IF d.kind = 3 THEN d.label ELSE "=id", tag |-> 0]),
+                                         !.vo = Ins(st.vo, d.id), !.n = st.n + 1], b, i + 1)
          ELSE FoldDeltas(st, b, i + 1)
 
 Empty == [x \in {} |-> 0]
-Init == nodes = Empty /\ edges = Empty /\ h = <<>>
+Init == nodes = Empty /\ edges = Empty /\ norder = <<>> /\ eorder = <<>> /\ last = [op |-> "init"]
 
-Rec(op, batch, rep) == h' = Append(h, [op |-> op, batch |-> batch, edits |-> rep,
-                                        nodes |-> nodes', edges |-> edges'])
-
-UpsertNodes(b) == /\ nodes' = FoldNodes(nodes, b, 1) /\ edges' = edges /\ Rec("upsert_nodes", b, 0)
-UpsertEdges(b) == /\ edges' = FoldEdges(edges, b, 1) /\ nodes' = nodes /\ Rec("upsert_edges", b, 0)
-ApplyDeltas(b) == LET r == FoldDeltas([v |-> nodes, e |-> edges, n |-> 0], b, 1) IN
-                  /\ nodes' = r.v /\ edges' = r.e /\ Rec("apply_deltas", b, r.n)
+UpsertNodes(b) == LET r == FoldNodes([v |-> nodes, o |-> norder], b, 1) IN
+                  /\ nodes' = r.v /\ norder' = r.o /\ UNCHANGED <<edges, eorder>>
+                  /\ last' = [op |-> "upsert_nodes", batch |-> b, edits |-> 0]
+UpsertEdges(b) == LET r == FoldEdges([e |-> edges, o |-> eorder], b, 1) IN
+                  /\ edges' = r.e /\ eorder' = r.o /\ UNCHANGED <<nodes, norder>>
+                  /\ last' = [op |-> "upsert_edges", batch |-> b, edits |-> 0]
+ApplyDeltas(b) == LET r == FoldDeltas([v |-> nodes, vo |-> norder, e |-> edges, eo |-> eorder, n |-> 0], b, 1) IN
+                  /\ nodes' = r.v /\ norder' = r.vo /\ edges' = r.e /\ eorder' = r.eo
+                  /\ last' = [op |-> "apply_deltas", batch |-> b, edits |-> r.n]
 
 NodeBatch == SeqsUpTo([id : NodeIds, label : Labels, tag : {0, 1}], MaxBatch)
 EdgeBatch == SeqsUpTo([id : EdgeIds, src : NodeIds, dst : NodeIds, w : Weights, rel : Rels], MaxBatch)
 DeltaBatch == SeqsUpTo(DeltaOps, MaxBatch)
 
-Next == /\ Len(h) < MaxLen
+Next == /\ TLCGet("level") <= MaxLen
         /\ \/ \E b \in NodeBatch : UpsertNodes(b)
            \/ \E b \in EdgeBatch : UpsertEdges(b)
            \/ \E b \in DeltaBatch : ApplyDeltas(b)
 Spec == Init /\ [][Next]_vars
 
 \* design clauses
-LastWriteWins == [][\A b \in NodeBatch : (UpsertNodes(b) /\ b # <<>>) =>
-                      nodes'[b[Len(b)].id] = [label |-> b[Len(b)].label, tag |-> b[Len(b)].tag]]_vars
-NodesNeverRemoved == [][DOMAIN nodes \subseteq DOMAIN nodes' /\ DOMAIN edges \subseteq DOMAIN edges']_vars
-DeltaKeepsExistingNode == [][\A b \in DeltaBatch : ApplyDeltas(b) => \A x \in DOMAIN nodes : nodes'[x] = nodes[x]]_vars
-EditsCountRecognised == h # <<>> /\ h[Len(h)].op = "apply_deltas" =>
-                        h[Len(h)].edits = Cardinality({i \in 1..Len(h[Len(h)].batch) : h[Len(h)].batch[i].kind # 5})
+OrdersAreTheDomains == /\ {norder[i] : i \in 1..Len(norder)} = DOMAIN nodes /\ Len(norder) = Cardinality(DOMAIN nodes)
+                       /\ {eorder[i] : i \in 1..Len(eorder)} = DOMAIN edges /\ Len(eorder) = Cardinality(DOMAIN edges)
+NothingRemoved == [][DOMAIN nodes \subseteq DOMAIN nodes' /\ DOMAIN edges \subseteq DOMAIN edges'
+                     /\ SubSeq(norder', 1, Len(norder)) = norder /\ SubSeq(eorder', 1, Len(eorder)) = eorder]_vars
+DeltaKeepsExistingNode == [][last'.op = "apply_deltas" => \A x \in DOMAIN nodes : nodes'[x] = nodes[x]]_vars
+EditsCountRecognised == last.op = "apply_deltas" =>
+                        last.edits = Cardinality({i \in 1..Len(last.batch) : last.batch[i].kind # 5})
 
-View_ == <<nodes, edges>>
-EmitAtEnd == (Len(h) = MaxLen) => PrintT(<<"T", ToJson([h |-> h])>>)
+View_ == <<nodes, edges, norder, eorder>>
+Emit == PrintT(<<"T", ToJson([pre |-> [nodes |-> nodes, edges |-> edges, norder |-> norder, eorder |-> eorder],
+                              obs |-> last',
+                              post |-> [nodes |-> nodes', edges |-> edges', norder |-> norder', eorder |-> eorder']])>>)
 =============================================================================
